@@ -74,3 +74,11 @@ Theorem C08_wrapper_ignored_text :
     fst q = fst p /\ f_ignored (snd q) = true.
 Proof. exact olf_effect_ignored_text. Qed.
 
+(* finding F42 as a witness theorem of the search model: a line without solution gets no decision at all *)
+From PasfmtVerif Require Import Model.WrapSearch Model.WrapFormat Proofs.WrapTieProofs Proofs.WrapFindingsProofs.
+Theorem C08_line_without_solution_gets_no_decision_F42 :
+  ss_fuel_err f42_run = false /\
+  outcome_of f42_run 0 = Some (WS_none 1) /\ decisions_of f42_run = [].
+Proof. exact line_without_solution_gets_no_decision_F42. Qed.
+
+
